@@ -140,7 +140,13 @@ func bufferCase(r *vh.Rand, kind string, src []byte, win, wout *bufio.Writer) {
 		for i := 0; i < nops; i++ {
 			if r.Chance(2, 5) {
 				ops = append(ops, "S")
-				outs = append(outs, fmt.Sprint(p.shift()))
+				t := p.shift()
+				outs = append(outs, fmt.Sprint(t))
+				if t == 0 {
+					// an ErrorToken was consumed: every minifier returns here and never touches the buffer again (a lexer
+					// error that is not the end of input, e.g. a NUL byte, would be followed by further tokens)
+					break
+				}
 			} else {
 				k := r.Intn(6)
 				if r.Chance(1, 8) {
